@@ -1,6 +1,6 @@
 \* spec mutation: mechanism rule "ovhNone" weakened -> TLC must violate an invariant (the oracle of WeightsGuards.tla)
-CONSTANTS WeightVecs = {6}  FeatDiag = TRUE  NPods = 2  PodArchs = {1, 2, 6, 8}
-CONSTANTS Feats = {"plain", "limit16", "min2", "archMin2", "teamX", "notReady", "startup"}
+CONSTANTS WeightVecs = {6}  FeatDiag = TRUE  NPods = 2  PodArchs = {1, 2, 6, 8, 9, 10}
+CONSTANTS Feats = {"plain", "limit8", "limit16", "min2", "archMin2", "teamX", "notReady", "startup"}
 CONSTANTS Catalogs = {2}  DaemonSets = {2, 3}  MaxTypesSet = {1, 2}  Policies = {"Strict"}  Weak = "ovhNone"
 SPECIFICATION Spec
 INVARIANTS Inv_C19_HighestWeightFeasible Inv_C19_CheapestPrefix Inv_C13_TypesSubsetMinValues Inv_C13_Requests Inv_C13_Template
